@@ -133,6 +133,9 @@ pub struct Monitor {
     pub st: Rc<RefCell<MonState>>,
     pub md5_check: bool,
     pub faults: Faults,
+    /// optional real writer behind the monitor (e.g. ObjectWriterFSBuilder): every call is
+    /// forwarded and its result is what the receiver sees
+    pub inner: Option<Rc<dyn ObjectWriterBuilder>>,
 }
 
 impl std::fmt::Debug for Monitor {
@@ -143,7 +146,10 @@ impl std::fmt::Debug for Monitor {
 
 impl Monitor {
     pub fn new(md5_check: bool, faults: Faults) -> Rc<Monitor> {
-        Rc::new(Monitor { st: Rc::new(RefCell::new(MonState::default())), md5_check, faults })
+        Rc::new(Monitor { st: Rc::new(RefCell::new(MonState::default())), md5_check, faults, inner: None })
+    }
+    pub fn with_inner(md5_check: bool, faults: Faults, inner: Rc<dyn ObjectWriterBuilder>) -> Rc<Monitor> {
+        Rc::new(Monitor { st: Rc::new(RefCell::new(MonState::default())), md5_check, faults, inner: Some(inner) })
     }
     pub fn writers(&self) -> Vec<WriterLog> {
         self.st.borrow().writers.clone()
@@ -157,6 +163,7 @@ impl Monitor {
 }
 
 struct MonWriter {
+    inner: Option<Box<dyn ObjectWriter>>,
     st: Rc<RefCell<MonState>>,
     idx: usize,
     md5_check: bool,
@@ -175,8 +182,12 @@ impl MonWriter {
 }
 
 impl ObjectWriter for MonWriter {
-    fn open(&self, _now: SystemTime) -> flute::error::Result<()> {
-        let ok = !self.fail_open;
+    fn open(&self, now: SystemTime) -> flute::error::Result<()> {
+        let inner_ok = match (&self.inner, self.fail_open) {
+            (Some(w), false) => w.open(now).is_ok(),
+            _ => true,
+        };
+        let ok = !self.fail_open && inner_ok;
         self.with(|w, errs, _| {
             if w.state != WState::Created {
                 errs.push(format!("writer #{} toi={}: open called in state {:?} ({})", w.idx, w.toi, w.state, w.trace()));
@@ -193,14 +204,19 @@ impl ObjectWriter for MonWriter {
         }
     }
 
-    fn write(&self, _sbn: u32, data: &[u8], _now: SystemTime) -> flute::error::Result<()> {
+    fn write(&self, sbn: u32, data: &[u8], now: SystemTime) -> flute::error::Result<()> {
         let n = {
             let mut c = self.writes_seen.borrow_mut();
             let n = *c;
             *c += 1;
             n
         };
-        let ok = !self.fail_writes.contains(&n);
+        let injected = self.fail_writes.contains(&n);
+        let inner_ok = match (&self.inner, injected) {
+            (Some(w), false) => w.write(sbn, data, now).is_ok(),
+            _ => true,
+        };
+        let ok = !injected && inner_ok;
         self.with(|w, errs, _| {
             if w.state != WState::Opened {
                 errs.push(format!(
@@ -224,13 +240,22 @@ impl ObjectWriter for MonWriter {
         }
     }
 
-    fn complete(&self, _now: SystemTime) {
+    fn complete(&self, now: SystemTime) {
+        if let Some(w) = &self.inner {
+            w.complete(now)
+        }
         self.terminal(Call::Complete)
     }
-    fn error(&self, _now: SystemTime) {
+    fn error(&self, now: SystemTime) {
+        if let Some(w) = &self.inner {
+            w.error(now)
+        }
         self.terminal(Call::Error)
     }
-    fn interrupted(&self, _now: SystemTime) {
+    fn interrupted(&self, now: SystemTime) {
+        if let Some(w) = &self.inner {
+            w.interrupted(now)
+        }
         self.terminal(Call::Interrupted)
     }
     fn enable_md5_check(&self) -> bool {
@@ -287,7 +312,7 @@ impl ObjectWriterBuilder for Monitor {
         tsi: &u64,
         toi: &u128,
         meta: &ObjectMetadata,
-        _now: SystemTime,
+        now: SystemTime,
     ) -> ObjectWriterBuilderResult {
         let call = {
             let mut st = self.st.borrow_mut();
@@ -300,6 +325,13 @@ impl ObjectWriterBuilder for Monitor {
             BuilderAnswer::Abort => return ObjectWriterBuilderResult::Abort,
             BuilderAnswer::Store => {}
         }
+        let inner = match &self.inner {
+            Some(b) => match b.new_object_writer(endpoint, tsi, toi, meta, now) {
+                ObjectWriterBuilderResult::StoreObject(w) => Some(w),
+                other => return other,
+            },
+            None => None,
+        };
         let mut st = self.st.borrow_mut();
         let idx = st.writers.len();
         st.writers.push(WriterLog {
@@ -315,6 +347,7 @@ impl ObjectWriterBuilder for Monitor {
             md5_check: self.md5_check,
         });
         ObjectWriterBuilderResult::StoreObject(Box::new(MonWriter {
+            inner,
             st: self.st.clone(),
             idx,
             md5_check: self.md5_check,
